@@ -30,7 +30,7 @@ TEXT = {
  'C03': ('model_checking', 'HP scheme only: same queries as C01 - exactly-once disposal by a pass for every retired object no guard protects, nothing disposed twice or unretired, and after the guards are dropped the next pass disposes the rest (DHP not encoded)'),
  'C09': ('model_checking', 'all schedules with at most K-1 context switches of 2 threads x 1 solver-chosen push/pop (3 threads and 2 operations per thread in the thorough tier) on the real container:: and intrusive::TreiberStack over the real hazard-pointer Guard/retire (pre-filled by solver choice; popped nodes are really freed by a pass right after the pop, so use-after-free shows as a deallocated-object dereference); history linearizable to a LIFO, items conserved; elimination back-off and FCStack are outside the claim'),
  'C06': ('model_checking', 'all schedules with at most K-1 context switches of 2 threads x 1 solver-chosen enqueue/dequeue on a queue pre-filled by solver choice, history linearizable to a FIFO (each item dequeued at most once, none invented, empty only if empty at some instant), items conserved: RWQueue in the quick tier; the real container::MSQueue, MoirQueue, BasketQueue and OptimisticQueue over the real hazard-pointer Guard/retire (hp_env.h, nodes really freed right after the dequeue) in the thorough tier (about 20 min per queue); FCQueue, DHP and more operations per thread are outside the claim'),
- 'C11': ('model_checking', 'MSPriorityQueue (intrusive, heap capacities 1, 3, 7): every sequential script of 5-6 solver-chosen push/pop calls with solver-chosen, also equal, priorities against a multiset model (pop returns a maximal item, push fails exactly at capacity, size/empty/full, ordered drain); thorough tier: 2 threads push||push and pop||pop linearizable to a bounded max-priority queue, mixed push||pop conservation and well-formed heap at quiescence, under every schedule with at most K-1 context switches; FCPriorityQueue outside the claim'),
+ 'C11': ('model_checking', 'MSPriorityQueue (intrusive, heap capacities 1, 3, 7): every sequential script of 5-6 solver-chosen push/pop calls with solver-chosen, also equal, priorities against a multiset model (pop returns a maximal item, push fails exactly at capacity, size/empty/full, ordered drain); thorough tier (10-27 min per query): 2 threads push||push and pop||pop linearizable to a bounded max-priority queue with a well-formed heap at quiescence, under every schedule with at most K-1 context switches; FCPriorityQueue outside the claim'),
  'C04': ('model_checking', 'general_instant only: the real access_lock/access_unlock (with nesting, also two nested pairs inside one outer section), flip_and_wait/check_grace_period, synchronize(), retire_ptr() and the real cds::threading::Manager thread records; reader(s) || updater(s) (2-3 threads, 1-2 updates/reads each) under every schedule with at most K-1 context switches: an object read inside a read-side critical section is never disposed before the reader leaves the outermost section; general_buffered (harness exists, no verdict within 50 min), general_threaded and signal_buffered are outside the claim'),
  'C05': ('model_checking', 'same queries as C04, general_instant only: every retired object is disposed exactly once - before retire_ptr() returns and (still exactly once) by the time Destruct() returns - and nothing that was not retired is disposed; the buffered, threaded and signal flavours are outside the claim'),
  'C24': ('model_checking', 'all schedules with at most K-1 context switches of 2-3 threads x 1-2 solver-chosen allocate/deallocate steps on the real vyukov_queue_pool, lazy_vyukov_queue_pool, bounded_vyukov_queue_pool and pool_allocator (capacity 2, driven past capacity where the pool allows it) from a solver-chosen pre-state of held objects; ghost set of allocated objects (no double hand-out), quiescent re-allocation of every pooled object'),
